@@ -286,6 +286,55 @@ func newRaceReports() []raceReport {
 	return out
 }
 
+// newRaceReportsInnermost: like newRaceReports, but a report counts as wasp's only if the
+// innermost frame of both access stacks is wasp code (whole-broker runs also execute
+// dependencies, whose own races are not this repository's).
+func newRaceReportsInnermost() []raceReport {
+	p := raceLogPath()
+	if p == "" {
+		return nil
+	}
+	b, err := os.ReadFile(p)
+	if err != nil || int64(len(b)) <= raceLogOff {
+		return nil
+	}
+	txt := string(b[raceLogOff:])
+	raceLogOff = int64(len(b))
+	var out []raceReport
+	for _, blk := range strings.Split(txt, "WARNING: DATA RACE")[1:] {
+		var frames []string
+		for _, sec := range strings.Split(blk, "\n\n") {
+			if !(strings.Contains(sec, "Write at") || strings.Contains(sec, "Read at") || strings.Contains(sec, "Previous write at") || strings.Contains(sec, "Previous read at")) {
+				continue
+			}
+			f := "?"
+			for _, l := range strings.Split(sec, "\n")[1:] {
+				if strings.HasPrefix(l, "      ") || strings.TrimSpace(l) == "" {
+					continue // file:line
+				}
+				l = strings.TrimSpace(l)
+				if strings.HasPrefix(l, "runtime.") || strings.HasPrefix(l, "sync.") || strings.HasPrefix(l, "sync/atomic.") || strings.HasPrefix(l, "internal/") || strings.Contains(l, "/verifrt.") {
+					continue
+				}
+				if strings.HasPrefix(l, "github.com/vx-labs/wasp/") {
+					if i := strings.LastIndex(l, "("); i > 0 {
+						l = l[:i]
+					}
+					f = strings.TrimPrefix(l, "github.com/vx-labs/wasp/v4/")
+				}
+				break
+			}
+			frames = append(frames, f)
+		}
+		for len(frames) < 2 {
+			frames = append(frames, "?")
+		}
+		sort.Strings(frames[:2])
+		out = append(out, raceReport{frames[0], frames[1]})
+	}
+	return out
+}
+
 // ---------------------------------------------------------------------------------------
 // objects under test: each defines how a step is executed and its sequential model
 
@@ -636,7 +685,6 @@ func (a *lsAckq) final(ops []lsOp) string {
 	return ""
 }
 
-
 // ---- expiry list used directly (its own locks are its concurrency contract) ----
 type lsExpList struct{ l expiration.List }
 
@@ -823,8 +871,8 @@ func (r *lsRepl) exec(s *Step) string {
 	}
 	return ""
 }
-func (r *lsRepl) init() string                                    { return "" }
-func (r *lsRepl) step(state, in, out string) (bool, string)       { return true, state }
+func (r *lsRepl) init() string                              { return "" }
+func (r *lsRepl) step(state, in, out string) (bool, string) { return true, state }
 func (r *lsRepl) final(ops []lsOp) string {
 	defer r.restore()
 	// every effect on a distinct key must be present: tasks use keys tagged with their own index,
@@ -930,11 +978,11 @@ type lsRetx struct {
 	bad   string
 }
 type retxGen struct {
-	sess      string
-	mid       int32
-	acked     int
-	released  int
-	resent    int
+	sess           string
+	mid            int32
+	acked          int
+	released       int
+	resent         int
 	resentAfterAck int
 }
 
